@@ -26,6 +26,10 @@ if dirty.strip():
     sys.exit(1)
 sh(["git", "fetch", "-q", f"{sb}/verif", pid], check=True)
 ours_kf = json.load(open(os.path.join(ROOT, "known_findings.json")))
+FL = os.path.join(ROOT, "tools", "conf", "floors.json")
+ours_fl = json.load(open(FL)) if os.path.exists(FL) else {}
+rc, theirs_fl_txt = sh(["git", "show", "FETCH_HEAD:tools/conf/floors.json"])
+theirs_fl = json.loads(theirs_fl_txt) if rc == 0 else {}
 rc, theirs_txt = sh(["git", "show", "FETCH_HEAD:known_findings.json"])
 theirs_kf = json.loads(theirs_txt) if rc == 0 else {"findings": []}
 rc, out = sh(["git", "merge", "--no-commit", "--no-ff", "FETCH_HEAD"])
@@ -35,7 +39,7 @@ if rc != 0 and "CONFLICT" not in out:
     sys.exit(1)
 rc, st = sh(["git", "diff", "--name-only", "--diff-filter=U"])
 conflicts = [l for l in st.splitlines() if l.strip()]
-auto = {"known_findings.json", "MANIFEST.json", "lean/LinfaSpec/Props/All.lean"}
+auto = {"known_findings.json", "MANIFEST.json", "lean/LinfaSpec/Props/All.lean", "tools/conf/floors.json", "seeded/results.json"}
 hard = [c for c in conflicts if c not in auto and not c.startswith("evidence/")]
 if hard:
     print("UNRESOLVED conflicts:", hard)
@@ -51,6 +55,14 @@ for f in theirs_kf["findings"]:
     elif f.get("property") == pid[:3]:
         ours_kf["findings"][ours_by_id[f["id"]]] = f
 json.dump(ours_kf, open(os.path.join(ROOT, "known_findings.json"), "w"), indent=1)
+# coverage-floor baselines: key-wise union, the builder's own property from the builder
+for k, v in theirs_fl.items():
+    if k == pid[:3] or k not in ours_fl:
+        ours_fl[k] = v
+if ours_fl:
+    json.dump(ours_fl, open(FL, "w"), indent=1, sort_keys=True)
+if "seeded/results.json" in conflicts:
+    sh(["git", "checkout", "--ours", "seeded/results.json"])
 sh([sys.executable, os.path.join(ROOT, "tools", "mkmanifest.py")], check=True)
 sh(["git", "add", "-A"])
 rc, out = sh(["git", "commit", "-q", "-m", f"Merge builder branch {pid}"])
